@@ -5,9 +5,11 @@
    accepts one connection at a time, reads the request the client sends (header, then as many body bytes as the
    header announces, or up to EOF), answers with the k-th byte string of the current script (nothing when the
    script is shorter) and closes.  Connection k of a call gets string k, so the retry loop of m_msg_client_xfer is
-   scripted attempt by attempt.  The back-off sleeps between attempts are removed (-Wl,--wrap=nanosleep) and
-   successful connects are counted (-Wl,--wrap=connect), malloc refuses requests above 64 MiB (-Wl,--wrap=malloc) so that the main thread knows when the peer is done with a
-   call; nothing depends on timing.  Built from /repo's current sources with ASan+UBSan(+LSan).
+   scripted attempt by attempt.  Nothing depends on timing: the back-off sleeps between attempts are removed
+   (-Wl,--wrap=nanosleep), the 2 s socket time-out is made infinite (-Wl,--wrap=poll; the peer always answers and
+   closes), successful connects are counted (-Wl,--wrap=connect) so that the main thread knows when the peer is done
+   with a call, and malloc refuses requests above 64 MiB (-Wl,--wrap=malloc, the oracle's allocator).  Built from
+   /repo's current sources with ASan+UBSan(+LSan).
 
    case lines (same as `extract/msg/oracle`)
      D <credhex> <n> <stream_1> ... <stream_n>                       cred = the C string handed to munge_decode
@@ -59,6 +61,11 @@ int __wrap_connect (int fd, const struct sockaddr *a, socklen_t l)
 #define HEAP_LIMIT ((size_t) 64 << 20)
 void *__real_malloc (size_t n);
 void *__wrap_malloc (size_t n) { if (n > HEAP_LIMIT) { errno = ENOMEM; return NULL; } return __real_malloc (n); }
+/* the 2 s socket time-out of m_msg_send / m_msg_recv (fd.c: poll with the time left): wait for the peer as long as it
+   takes - it always answers and closes, so EOF always comes - instead of racing a loaded machine */
+#include <poll.h>
+int __real_poll (struct pollfd *f, nfds_t n, int t);
+int __wrap_poll (struct pollfd *f, nfds_t n, int t) { return __real_poll (f, n, t > 0 ? -1 : t); }
 /* the retry back-off of m_msg_client_xfer / _m_msg_client_connect: no waiting */
 int __wrap_nanosleep (const struct timespec *rq, struct timespec *rm) { (void) rq; (void) rm; return 0; }
 
@@ -82,13 +89,16 @@ static void *peer (void *arg)
         unsigned char *b;
         if (c < 0) { if (errno == EINTR) continue; break; }
         pthread_mutex_lock (&mu); k = served; pthread_mutex_unlock (&mu);
-        b = malloc (REQCAP);
-        got = read_n (c, b, 11);
+        unsigned char h[11];
+        got = read_n (c, h, 11);
         if (got == 11) {
-            uint32_t plen = ((uint32_t) b[7] << 24) | (b[8] << 16) | (b[9] << 8) | b[10];
+            uint32_t plen = ((uint32_t) h[7] << 24) | (h[8] << 16) | (h[9] << 8) | h[10];
             if (plen > REQCAP - 11) plen = REQCAP - 11;
+            b = malloc (11 + (size_t) plen);
+            memcpy (b, h, 11);
             got += read_n (c, b + 11, (int) plen);
         }
+        else { b = malloc (11); memcpy (b, h, got); }
         if (k < MAXCONN) { req[k] = b; req_len[k] = got; } else free (b);
         if (k < n_script) {
             off = 0;
